@@ -286,20 +286,46 @@ func c07Message(p *pair, dir int, class string, bases c07Sizes) (res c07Result) 
 }
 
 type c07Cell struct {
-	Policy string
-	Mode   int
-	Bits   int
+	Policy  string
+	Mode    int
+	Bits    int
+	SrvBits int // 0 = same as Bits
 }
 
 func c07Cells() []c07Cell {
-	cells := []c07Cell{{"None", modeNone, 0}}
+	cells := []c07Cell{{"None", modeNone, 0, 0}}
 	for _, sp := range symSpecs {
 		for _, bits := range []int{1024, 2048, 3072, 4096} {
 			if bits < sp.MinRSA || bits > sp.MaxRSA {
 				continue
 			}
 			for _, m := range []int{modeSign, modeSE} {
-				cells = append(cells, c07Cell{sp.Name, m, bits})
+				cells = append(cells, c07Cell{sp.Name, m, bits, 0})
+			}
+		}
+	}
+	return cells
+}
+
+// c07MixedCells: client and server keys of different sizes (the OpenSecureChannel chunks are encrypted with the
+// receiver's key and signed with the sender's: block sizes, signature sizes and the extra padding byte differ per direction).
+func c07MixedCells() []c07Cell {
+	var cells []c07Cell
+	for _, sp := range symSpecs {
+		var sizes []int
+		for _, bits := range []int{1024, 2048, 3072, 4096} {
+			if bits >= sp.MinRSA && bits <= sp.MaxRSA {
+				sizes = append(sizes, bits)
+			}
+		}
+		for _, cb := range sizes {
+			for _, sb := range sizes {
+				if cb == sb {
+					continue
+				}
+				for _, m := range []int{modeSign, modeSE} {
+					cells = append(cells, c07Cell{sp.Name, m, cb, sb})
+				}
 			}
 		}
 	}
@@ -348,7 +374,7 @@ func runC07() {
 	cells := c07Cells()
 	sizes, text := c07ChunkSizes(evid.Thorough())
 	r.Rule(fmt.Sprintf("grid: %d cells (policy None/mode None; Basic128Rsa15, Basic256 x RSA 1024, 2048 and Basic256Sha256, Aes128_Sha256_RsaOaep, Aes256_Sha256_RsaPss x RSA 2048, 3072, 4096, each x Sign, SignAndEncrypt) x negotiated chunk sizes {%s} x body size classes %v (m = the sender's maxBodySize; payload=k: the smallest message plus k payload bytes) x direction (client->server WriteRequest, server->client ReadResponse); every pair built by the real Hello/Acknowledge + OpenSecureChannel handshake over loopback TCP. A case = (cell, chunk size, class, direction); every case is non-trivial (a real message crosses a real channel); distinct by that tuple", len(cells), text, c07Classes))
-	r.Assume("same RSA key size on both sides (client pair a, server pair b); MaxMessageSize 64 MiB and MaxChunkCount 65536 so that no message of the grid hits a message limit",
+	r.Assume(fmt.Sprintf("client key pair a, server key pair b; besides the equal-size cells, %d cells with every ordered pair of unequal key sizes the policy allows, at chunk sizes 8192 and 65536; MaxMessageSize", len(c07MixedCells()))+" 64 MiB and MaxChunkCount 65536 so that no message of the grid hits a message limit",
 		"message equality = identical ua.Encode re-encoding plus byte-equal ByteString payload")
 
 	type job struct {
@@ -358,6 +384,14 @@ func runC07() {
 	var jobs []job
 	for _, n := range sizes {
 		for _, c := range cells {
+			jobs = append(jobs, job{c, n})
+		}
+	}
+	// unequal key sizes: at the smallest chunk size and at 65536 (the key sizes matter to the asymmetric
+	// chunks of the handshake and to nothing that depends on the chunk size)
+	mixed := c07MixedCells()
+	for _, n := range []uint32{8192, 65536} {
+		for _, c := range mixed {
 			jobs = append(jobs, job{c, n})
 		}
 	}
@@ -374,7 +408,7 @@ func runC07() {
 				w.Capped("a worker stopped after 6 failing cases (3 if they ended in the 60 s hang watchdog); the violations found so far are reported")
 				break
 			}
-			cfg := pairCfg{Policy: j.cell.Policy, Mode: j.cell.Mode, Bits: j.cell.Bits, ChunkSize: j.n}
+			cfg := pairCfg{Policy: j.cell.Policy, Mode: j.cell.Mode, Bits: j.cell.Bits, SrvBits: j.cell.SrvBits, ChunkSize: j.n}
 			evid.Publish("pair " + cfg.String())
 			p, err := openPair(cfg)
 			if _, infra := err.(errInfra); infra {
